@@ -48,6 +48,7 @@ type FuncContract struct {
 	Inline    bool
 	Trusted   bool
 	Lemma     bool
+	Pure      bool // the result is a function of the arguments' contents only (checked syntactically)
 	PanicsIff *Clause
 	Ghost     []*Clause // `ghost name = expr` bindings evaluated at exit
 	Splits    []*Clause // case-split hints: each obligation is also given these disjuncts
@@ -78,7 +79,7 @@ type PkgContracts struct {
 
 var clauseKeywords = map[string]bool{
 	"mode": true, "requires": true, "ensures": true, "assigns": true, "loop": true, "inline": true,
-	"trusted": true, "lemma": true, "panics_iff": true, "ghost": true, "split": true, "opt": true, "bound": true,
+	"trusted": true, "lemma": true, "panics_iff": true, "ghost": true, "split": true, "opt": true, "bound": true, "pure": true,
 }
 
 var tagRe = regexp.MustCompile(`^\[([^\]]*)\]\s*`)
@@ -255,6 +256,8 @@ func ParseContractFile(path string) (*PkgContracts, error) {
 					fc.Trusted = true
 				case "lemma":
 					fc.Lemma = true
+				case "pure":
+					fc.Pure = true
 				case "opt":
 					fs := strings.Fields(s.text)
 					if len(fs) == 2 {
